@@ -113,6 +113,8 @@ def wfl_tie(run: core.Run, drv: Any, ok_cases: list, jobs: int) -> Counter:
                 st["in_F3"] += 1
             if rep.get("f4"):
                 st["in_F4"] += 1
+            elif rep.get("f4why"):
+                st["not_F4:" + rep["f4why"][:70]] += 1
         else:
             st["tosrc_differs"] += 1
             tshown += 1
